@@ -58,6 +58,7 @@ func (c9Empty) String() string { return "c9Empty" }
 type c9Fn struct {
 	base    *frugal.FBaseProcessorFunction
 	handler func(frugal.FContext)
+	name    string // method name ("m" when empty)
 }
 
 func (f *c9Fn) Process(fctx frugal.FContext, in, out *frugal.FProtocol) error {
@@ -70,7 +71,11 @@ func (f *c9Fn) Process(fctx frugal.FContext, in, out *frugal.FProtocol) error {
 		return err
 	}
 	f.handler(fctx)
-	return f.base.SendReply(fctx, out, "m", c9Empty{})
+	name := f.name
+	if name == "" {
+		name = "m"
+	}
+	return f.base.SendReply(fctx, out, name, c9Empty{})
 }
 func (f *c9Fn) AddMiddleware(frugal.ServiceMiddleware) {}
 
